@@ -2,7 +2,7 @@
    proofs: Proof/CumulativeP.v.  acc_seq a gs n = 1 - (1-a) prod_{i<n} exp(-G_i),
    G_i = sum of the i-th rate vector. *)
 From Coq Require Import Reals List Lra Lia.
-From MV Require Import Ops RInst Vec Cplx Mat Hop Hopper Cumulative HopperP CumulativeP Propagate Traj TrajP.
+From MV Require Import Ops RInst Vec Cplx Mat Hop Hopper Cumulative HopperP CumulativeP Propagate PropagateP Traj TrajP.
 Import ListNotations.
 Open Scope R_scope.
 
@@ -87,6 +87,16 @@ Theorem C09_full_step_accepted_hop : forall n m dt e0 e1 lam Cm (s s' : tstate (
   /\ acc c' = 0.
 Proof. exact step_cum_hop_energy. Qed.
 Print Assumptions C09_full_step_accepted_hop.
+
+(* any number of cumulative passes (Model/Traj.run_cum): the active state follows the accepted attempts alone,
+   one attempt record per pass, the density matrix never feels the attempts *)
+Theorem C09_full_run : forall n m dt (ds : list (sdata (T:=R))) (s sf : tstate (T:=R)) c cf atts,
+  run_cum ROps n m dt ds s c = (sf, cf, atts) ->
+  length atts = length ds /\ ptime sf = ptime s + INR (length ds) * dt
+  /\ prho sf = PropagateP.exp_steps n (map (fun d => (dlam d, dC d, dt)) ds) (prho s)
+  /\ pact sf = follow (pact s) atts.
+Proof. intros n m dt ds s sf c cf atts H. apply (run_cum_invariants n m dt ds s c sf cf atts H). Qed.
+Print Assumptions C09_full_run.
 
 Example C09_witness : accumulate ROps 0 0 = 0 /\ (0 < 1)%nat.
 Proof. split; [rewrite accumulate_R, Ropp_0, exp_0; ring | lia]. Qed.
